@@ -207,8 +207,15 @@ func (h *Hist) govPoolShock() (string, *histTx) {
 // govVaultShock: governance re-sends the lending vault's parameters with another epoch length (the number of blocks between two
 // adjustments of the interest rate; the default is 1) - everything else as it stands.
 func (h *Hist) govVaultShock() string {
-	var p sstypes.Params
-	h.w.Seed(func(ctx sdk.Context) { p = h.w.App.StablestakeKeeper.GetParams(ctx) })
+	var fresh sstypes.Params
+	h.w.Seed(func(ctx sdk.Context) { fresh = h.w.App.StablestakeKeeper.GetParams(ctx) })
+	// the message carries the parameters as they were when the PREVIOUS proposal was executed (the draft is older than the vault's
+	// latest deposits, withdrawals and interest): whatever the vault did in between must not be undone by the stale copy
+	p := fresh
+	if h.vaultDraft != nil {
+		p = *h.vaultDraft
+	}
+	h.vaultDraft = &fresh
 	p.EpochLength = []int64{1, 2, 5, 10, 30}[h.r.Intn(5)]
 	if h.govApplyRecorded(&sstypes.MsgUpdateParams{Authority: h.w.Gov, Params: &p}) {
 		return fmt.Sprintf("stablestake.EpochLength=%d", p.EpochLength)
